@@ -4,6 +4,7 @@ from .core import *
 def run():
     t0 = time.time()
     log("setup: harness"); build_harness()
+    log("setup: rs2v (coq/gen from /repo's source)"); rs2v()
     log("setup: coq (all theories and props)")
     ok, out = coq_make([])
     if not ok:
